@@ -242,6 +242,18 @@ def verus_unit(pid, spec, repo, tier, out):
                 # lemma / spec function in the template: attribute by template text search is unreliable; take
                 # diagnostics that are not inside any extracted function
                 fdi = [d for d in diags if d["line"] and wv.function_at(unit, d["line"]) is None]
+            # clause-level slicing: a failing clause that is not part of THIS property's statement is not its violation
+            ign = [rx for k, v in spec.get("ignore_clauses", {}).items() if nm.endswith(k) for rx in v]
+            if ign and fdi:
+                kept = [d for d in fdi if not any(re.search(rx, d["text"] + " " + " ".join(t for (_, _, t) in d["labels"])) for rx in ign)]
+                if not kept:
+                    out.notes.append("%s: %s fails only on clauses outside this property's statement (%s)" % (name, nm, "; ".join(sorted({d["text"][:60] for d in fdi}))))
+                    for o in out.obligations:
+                        if o["unit"] == name and o["function"] == nm:
+                            o["success"] = True
+                            o["note"] = "failing clauses are outside this property's slice"
+                    continue
+                fdi = kept
             if fdi and all("limit" in d["message"].lower() for d in fdi) or (not fdi and only_rlimit):
                 out.undecided.append("%s: %s: resource limit exceeded in every configuration" % (name, nm))
                 continue
@@ -494,6 +506,20 @@ def main():
     if tier == "thorough":
         for u in P.get("units", []):
             thorough_extra(pid, u, repo, out)
+    # ---- fallback (DESIGN §2.6): the overlay could not be applied (lost anchor / unsupported construct /
+    # resource limit), so the verifier decides nothing. A directed search on the real code may still find a
+    # concrete failing input for the same contracts; that is a real counterexample (never a false alarm).
+    # Finding none leaves the property UNDECIDED.
+    if out.undecided and not out.violations and P.get("fallback_searches"):
+        for c in P["fallback_searches"]:
+            w = search_witness(repo, c, seed, 8 if tier == "quick" else 40)
+            if w and not w.get("error"):
+                out.violations.append(dict(unit="fallback-search", function=c, repo_fn=None,
+                                           messages=[dict(kind="contract refuted by a concrete input (the proof overlay no longer applies to this function: %s)" % "; ".join(out.undecided)[:300],
+                                                          message=w.get("what", ""), at="", text="", labels=[])],
+                                           verifier_output="UNDECIDED by the verifier: " + "; ".join(out.undecided) + "\nfallback directed search on the real code found a failing input for contract `%s`" % c,
+                                           witness=w))
+                break
     # ---- verdict
     known = load_known()
     real = []
